@@ -43,6 +43,7 @@ class Knobs:
     nonzero_lo: float = 0.2
     symbolic: bool = True
     ncallees: int = 1
+    p_idxarg: float = 0.25  # probability of an index argument q in 0..3
     p_boolnest: float = 0.12  # probability of a two-way / of a nested three-way condition
 
 
@@ -203,6 +204,13 @@ class _Gen:
                     # negative numerators under % (floor-mod is still in range)
                     return f"({L.var} - {shift}) % {c}"
                 return f"({L.var} + {shift}) % {c}"
+        if self.idxargs and r.random() < 0.3:
+            # an index argument with an asserted range as (part of) the index
+            a_, (alo, ahi) = r.choice(sorted(self.idxargs.items()))
+            m = self.ext_min(E)
+            if alo >= 0 and ahi < m:
+                k = r.choice([0, m - 1 - ahi])
+                return self.fmt_affine(a_, k)
         if self.negidx and r.random() < self.kn.p_quasi:
             # the possibly negative index argument (-6..6) under floor division / modulo
             m = self.ext_min(E)
@@ -432,6 +440,14 @@ class _Gen:
             if cands_c:
                 c = r.choice(cands_c)
                 qbound = (f"({self.negidx} - {r.choice([0, 1, 5])}) % {c}", c)
+        if qbound is None and self.loops and r.random() < self.kn.p_quasi * 0.5:
+            # a trip count that is the floor-mod of an outer iterator (short constant ranges
+            # that straddle a multiple of the modulus included)
+            Lo = r.choice(self.loops)
+            cands_c = [c for c in (2, 3, 4) if c <= self.ext_min(E)]
+            if cands_c:
+                c = r.choice(cands_c)
+                qbound = (f"({Lo.var} + {r.choice([0, 1, 2, 3])}) % {c}", c)
         base = r.choice(["i", "j", "k", "ii", "jj"])
         live = {L.var for L in self.loops}
         if self.kn.hostile_names and base not in live:
@@ -878,7 +894,7 @@ def gen_program(rng, kn: Knobs = None, root="root") -> GenProgram:
         g.used_names.add("flag")
         sig.append("flag: bool")
         g.bools.append("flag")
-    if rng.random() < 0.25:
+    if rng.random() < kn.p_idxarg:
         g.used_names.add("q")
         sig.append("q: index")
         g.idxargs["q"] = (0, 3)
